@@ -18,13 +18,19 @@ var (
 // rules themselves are armed by C08) and returns, per assembly routine, the
 // pointer parameters it stores through.
 func asmWritesOf(p *load.Program) map[string][]int {
+	w, _ := asmFactsOf(p)
+	return w
+}
+
+func asmFactsOf(p *load.Program) (map[string][]int, map[string][]int) {
 	out := map[string][]int{}
+	reads := map[string][]int{}
 	n := 0
 	for _, pk := range p.Pkgs {
 		n += len(pk.OtherFiles)
 	}
 	if n == 0 {
-		return out
+		return out, reads
 	}
 	scratch := report.New("ASM-FACTS", "quick", 0)
 	scratch.SetConfig(p.Cfg.ID)
@@ -35,8 +41,13 @@ func asmWritesOf(p *load.Program) map[string][]int {
 			w = append(w, pr.Index)
 		}
 		out[sf.QualifiedName()] = w
+		var r []int
+		for _, pr := range sf.Reads {
+			r = append(r, pr.Index)
+		}
+		reads[sf.QualifiedName()] = r
 	}
-	return out
+	return out, reads
 }
 
 // modFor returns the (cached) may-write summaries of a program, with the
@@ -47,7 +58,8 @@ func modFor(p *load.Program) *emod.Mod {
 	if m, ok := modCache[p]; ok {
 		return m
 	}
-	m := emod.New(p, asmWritesOf(p))
+	aw, ar := asmFactsOf(p)
+	m := emod.NewRW(p, aw, ar)
 	modCache[p] = m
 	return m
 }
